@@ -393,3 +393,100 @@ def rule_commit(ctx):
 
 
 RULES.append(("C04.p", "branch-commit: between the decision to perform an effect and the effect there is no way out", rule_commit))
+
+
+def rule_pool_bits(ctx):
+    """Operand-level clauses of the pool manager's bit set (`active_workers`, one bit per worker): which bit is set, cleared and
+    tested. A wrong shift operand keeps every call and branch in place and makes a worker park while marked active, or the pool look
+    idle with a worker running."""
+    P = ctx.prog
+
+    def is_one_shl(o, pred):
+        return isinstance(o, tuple) and o[0] == "bin" and o[1] == "Shl" and o[2][0] == "const" and o[2][1] == 1 and pred(o[3])
+
+    # activate_worker(_relaxed): set the bit of the first idle worker = trailing_ones(active_workers), unpark that same worker
+    for nm in ("activate_worker", "activate_worker_relaxed"):
+        b = P.body(PM + nm)
+        if b is None:
+            ctx.missing(PM + nm)
+            continue
+        ors = [s for s in b.calls("^std::sync::atomic::Atomic::fetch_or$")]
+        nonzero = []
+        for s in ors:
+            vo = b.origins(s.args()[1], s)
+            if vo and all(o[0] == "const" and o[1] == 0 for o in vo):
+                continue  # fetch_or(0): a pure RMW read (synchronisation), sets nothing
+            nonzero.append((s, vo))
+        ok = len(nonzero) == 1 and len(nonzero[0][1]) == 1 and is_one_shl(next(iter(nonzero[0][1])), lambda x: x[0] == "call" and x[2].endswith("trailing_ones"))
+        ctx.ob("pool-bits|%s|sets-first-idle-bit" % nm, ok, "the bit set is 1 << trailing_ones(active_workers): the lowest inactive worker", [s for s, _ in nonzero] or ors)
+        unp = list(b.calls(r"parking::Unparker::unpark$"))
+        good = bool(unp)
+        for u in unp:
+            io = set()
+            for o in b.origins(u.args()[0], u):
+                rt, names = origin_proj_names(o)
+                for n_ in names:
+                    if n_[0] == "i" and len(n_) > 1:
+                        io |= set(b.place_origins({"l": n_[1], "p": []}, u))
+            good = good and bool(io) and all(x[0] == "call" and x[2].endswith("trailing_ones") for x in io)
+        ctx.ob("pool-bits|%s|unparks-that-worker" % nm, good, "the worker that is unparked is the one whose bit was set", unp)
+    # try_set_worker_inactive: clear exactly the caller's bit unless it is the only one set; report `false` exactly then
+    b = P.body(PM + "try_set_worker_inactive")
+    if b is None:
+        ctx.missing(PM + "try_set_worker_inactive")
+    else:
+        cl = [c for c in P.children(b) if any(True for _ in c.aggregates(variant="Some"))]
+        ok = len(cl) == 1
+        sites = []
+        if ok:
+            c = cl[0]
+            is_id = lambda x: P.resolved_origins(c, {"k": "copy", "pl": {"l": 1, "p": ["*", ["f", 0, "0", ""]]}}, None) if False else True
+            seen = set()
+            for r in K.ret_assigns(c):
+                if r.is_term or r.node["r"]["r"] != "agg" or r.node["r"].get("variant") != "Some":
+                    continue
+                sites.append(r)
+                vo = c.origins(r.node["r"]["ops"][0], r)
+                conds = [x for x in c.conditions(r) if x.kind == "cmp"]
+                bit = lambda o: is_one_shl(o, lambda x: x[0] == "proj" and x[1] == ("env",))
+                cmp_ok = len(conds) == 1 and ((conds[0].data[1] == frozenset([("arg", 2)]) and len(conds[0].data[2]) == 1 and bit(next(iter(conds[0].data[2])))) or
+                                              (conds[0].data[2] == frozenset([("arg", 2)]) and len(conds[0].data[1]) == 1 and bit(next(iter(conds[0].data[1])))))
+                if cmp_ok and conds[0].data[0] == "==":
+                    seen.add("last")
+                    ok = ok and vo == frozenset([("arg", 2)])
+                elif cmp_ok and conds[0].data[0] == "!=":
+                    seen.add("not-last")
+                    o = next(iter(vo)) if len(vo) == 1 else None
+                    ok = ok and o is not None and o[0] == "bin" and o[1] == "BitAnd" and o[2] == ("arg", 2) and o[3][0] == "un" and o[3][1] == "Not" and bit(o[3][2])
+                else:
+                    ok = False
+            ok = ok and seen == {"last", "not-last"}
+        ctx.ob("pool-bits|try_set_worker_inactive|clears-own-bit-unless-last", ok,
+               "the update keeps the word if it equals 1 << worker_id (the caller is the last active worker) and otherwise clears exactly bit worker_id",
+               sites or [b.name])
+        rets = [r for r in K.ret_assigns(b) if not r.is_term and r.node["r"]["r"] == "use" and r.node["r"]["o"].get("k") == "const"]
+        good = len(rets) == 2
+        for r in rets:
+            val = r.node["r"]["o"].get("v")
+            cs = [x for x in b.conditions(r) if x.kind == "cmp" and x.data[0] in ("==", "!=")]
+            is_last = [x for x in cs if any(isinstance(o, tuple) and o[0] == "bin" and o[1] == "Shl" for o in (x.data[1] | x.data[2])) and
+                       any(o[0] == "call" and o[2].endswith("fetch_update") or (o[0] == "proj") for o in (x.data[1] | x.data[2]))]
+            good = good and bool(is_last) and ((is_last[-1].data[0] == "==") == (val is False))
+        ctx.ob("pool-bits|try_set_worker_inactive|false-iff-last", good,
+               "try_set_worker_inactive returns false exactly when the previous word was 1 << worker_id (the caller was the last active worker)", rets)
+    b = P.body(PM + "set_all_workers_inactive")
+    if b is not None:
+        st = list(b.calls("^std::sync::atomic::Atomic::store$"))
+        ctx.ob("pool-bits|set_all_workers_inactive|stores-zero", len(st) == 1 and all(o[0] == "const" and o[1] == 0 for o in b.origins(st[0].args()[1], st[0])),
+               "declaring the pool idle stores 0", st)
+    b = P.body(PM + "pool_is_idle")
+    if b is not None:
+        rets = [r for r in K.ret_assigns(b) if not r.is_term]
+        ok = len(rets) == 1 and rets[0].node["r"]["r"] == "bin" and rets[0].node["r"]["op"] == "Eq" and rets[0].node["r"]["b"].get("v") == 0
+        if ok:
+            ao = b.origins(rets[0].node["r"]["a"], rets[0])
+            ok = bool(ao) and all(o[0] == "call" and o[2].endswith("Atomic::load") and atomics.receiver_field(b, Site(b, o[1], TERM)) == "active_workers" for o in ao)
+        ctx.ob("pool-bits|pool_is_idle|word-is-zero", ok, "the pool is idle iff active_workers == 0", rets)
+
+
+RULES.append(("C04.q", "pool manager bit set: which bit is set, cleared, tested (operand level)", rule_pool_bits))
